@@ -306,3 +306,51 @@ PROPS["C03"] = {
                   "'started without waiting' decidable without timeouts",
     "assumptions": [],
 }
+
+PROPS["C04"] = {
+    "title": "The attack loop obeys its pacer and its duration",
+    "units": [{"name": "virtual", "pkg": "libsync", "go": "go1.26.8", "run": "^TestC04"},
+              {"name": "realtime", "pkg": "lib", "run": "^TestC04", "shards_quick": 2, "shards_thorough": 8, "disabled": True}],
+    "rule": "rapid draws adversarial scripted pacers (1..120 answers: negative, zero, ns, ms, seconds..minutes, around and "
+            "beyond the duration; then stop), durations (none or 1 ns..10 min), (workers, max-workers) in 0..8 x 1..8, "
+            "per-hit response latencies 0..minutes and consumer delays; the attack runs to its end inside a "
+            "testing/synctest bubble, so every instant is exact virtual time. Non-trivial = >= 3 hits, >= 1 positive "
+            "wait, ended by duration or pacer stop; distinct = distinct case.",
+    "explanation": "Oracle: pacer call k carries hits == k and elapsed == now - attack start exactly, non-decreasing, "
+                   "never beyond the duration; sorted transport entry instants (and result timestamps): the i-th start "
+                   "is not before the i-th release (call instant + max(wait,0)); ended by pacer stop => exactly the "
+                   "released hits started and delivered, no consultation afterwards; ended by duration => all released "
+                   "hits delivered, at most one started after the deadline, not ended before it; the channel closes "
+                   "(a hang is a bubble deadlock) and no goroutine is left.",
+    "technique": "property-based testing on a virtual clock (rapid.SyncTest-style bubbles) with an adversarial scripted pacer and a recording transport",
+    "level_text": "generated-input search over pacers, durations, worker limits and latencies in exact virtual time; "
+                  "cannot prove absence",
+    "level_note": "needs go1.26.8 (testing/synctest); real scheduling noise is replaced by exact virtual time, which "
+                  "makes the lower bounds exact instead of noisy",
+    "assumptions": [],
+}
+
+PROPS["C17"] = {
+    "title": "The plot shows every result exactly once, whatever the arrival order",
+    "units": [{"name": "plot", "pkg": "plot", "run": "^TestC17"},
+              {"name": "lttb", "pkg": "lttb", "run": "^TestC17"},
+              {"name": "plotcmd", "pkg": "main", "run": "^TestC17", "shards_quick": 2, "shards_thorough": 8}],
+    "rule": "rapid draws 1..4 attacks (names that are prefixes of each other, differ in case, empty) with 1..800 "
+            "(thorough 5000) results each: contiguous seqs, timestamps non-decreasing in seq with gaps from 0 (several "
+            "per ms) to minutes, latencies ns..hours, all-OK / all-error / first error late / mixed; arrival order: in "
+            "order, reversed, seq 0 last, shuffled; threshold in {0,1,2,3,4,10,L-1,L,L+1,L/2,4000}. lttb.Downsample is "
+            "additionally enumerated for EVERY (count <= 64, threshold <= count+2) over ramp/constant/alternating "
+            "series and drawn at random up to 6000 points over five shapes; the plot command is run on per-attack files "
+            "in each encoding. Non-trivial = arrival order != seq order with >= 2 series, or a series longer than a "
+            "threshold >= 3; distinct = hash of the case.",
+    "explanation": "Oracle: the data block and labels parsed back from the written HTML: per 'attack: OK|ERROR' series "
+                   "the multiset of points equals {(floor((ts-ts0)/1ms)/1000 s, latency/1ms)}, rows sorted by x with "
+                   "exactly one series value each; longer than threshold T>=3 => exactly T points, a sub-multiset "
+                   "containing the first and last points (subsequence in order for lttb.Downsample itself); T=0 or "
+                   "L<=T => unchanged; L>T in {1,2} => error and no output.",
+    "technique": "property-based metamorphic test over arrival permutations + bounded-exhaustive (count, threshold) enumeration (rapid)",
+    "level_text": "generated-input search over result sets, arrival permutations and thresholds with an exact point "
+                  "model, plus complete enumeration of (count<=64, threshold) for the downsampler; cannot prove absence beyond that",
+    "level_note": "x compared with relative tolerance 1e-9, y with 1e-12",
+    "assumptions": ["sequence numbers are contiguous per attack and timestamps do not decrease with the sequence number (what one attack produces, C05)"],
+}
